@@ -1517,7 +1517,7 @@ class AnsiString:
             if count > 0:
                 count -= 1
             # An empty old string matches at every position - step over 1 character so that this terminates
-            idx = obj._s.find(old, idx + len(new) + (0 if old else 1))
+            idx = obj._s.find(old, idx + len(replace) + (0 if old else 1))
 
         if inplace:
             self._s = obj._s
